@@ -9,6 +9,10 @@ def catalogue(rep, tier, n_random):
     rep.add_tlc("Abi/cover", r)
     defs = r.printed["DEFS"][0]
     cases = r.printed["CASE"]
+    rc = lib.tlc("abi", "MC_Abi", "abi_cb.cfg", workers=2, coverage=False)
+    lib.tlc_expect_ok(rc, "Abi callbacks")
+    rep.add_tlc("Abi/cb", rc)
+    cases = cases + rc.printed["CASE"]
     rs = lib.tlc("abi", "MC_Abi", "abi_random.cfg", workers=1, coverage=False, simulate=100, depth=8)
     lib.tlc_expect_ok(rs, "Abi random")
     rep.add_tlc("Abi/random", rs)
@@ -69,6 +73,18 @@ def static_checks(e, sym, proto):
     for s, t, l in zip(sh["params"] + [sh["ret"]], ptys + [rty], lay["params"] + [lay["ret"]]):
         if s["s"] in ("struct",):
             out.append("_Static_assert(sizeof(%s) == %d && _Alignof(%s) == %d, \"%s: size/align of %s\");" % (t, l["size"], t, l["align"], sym, t))
+    # callbacks: run_callback must have exactly the native signature the spec computes (data pointer first)
+    cbs = e.get("cbs") or {}
+    if isinstance(cbs, list):
+        cbs = {str(i + 1): c for i, c in enumerate(cbs)}
+    off = len(sh["params"]) - len(e["sig"]["params"]) - (1 if e["sig"]["write"] else 0)
+    for idx, cs in cbs.items():
+        i = int(idx) - 1
+        p = e["sig"]["params"][i]
+        names = ["const void*"] + [c_scalar(x) or (a["n"] if a["k"] == "struct" else "?") for x, a in zip(cs["params"][1:], p["ps"])]
+        r = c_scalar(cs["ret"]) or (p["r"]["n"] if p["r"]["k"] == "struct" else "?")
+        out.append("{ %s t_; memset(&t_, 0, sizeof t_); %s (*fp_)(%s) = t_.run_callback; void (*dp_)(const void*) = t_.destructor; "
+                   "const void* d_ = t_.data; (void)fp_; (void)dp_; (void)d_; }" % (ptys[off + i], r, ", ".join(names)))
     return " ".join(out)
 
 
@@ -126,7 +142,7 @@ def build_and_run(rep, tag, defs, entries, wd, cc_flags=("-std=c11",), lang="c")
         calls.append(static_checks(e, sym, protos[sym]))
         calls.append(g.c_call(e["n"], e["sig"], sym, protos[sym], e["args"], e["write"]))
     headers = sorted(f for f in os.listdir(out) if f.endswith(".h") and not f.endswith(".d.h"))
-    drv = (callgen.C_SUPPORT + "".join('#include "%s"\n' % h for h in headers) + "extern void dv_layouts(void);\n"
+    drv = (callgen.C_SUPPORT + "".join('#include "%s"\n' % h for h in headers) + "\n".join(g.prelude) + "\nextern void dv_layouts(void);\n"
            "int main(void) {\n    Opq* obj = Opq_mk(1);\n    Host* host = Host_mk(7);\n    (void)obj; (void)host;\n    dv_layouts();\n    "
            + layout_c(defs) + "\n    " + "\n    ".join(calls) + "\n    Opq_destroy(obj);\n    Host_destroy(host);\n    return 0;\n}\n")
     dp = os.path.join(wd, "driver_%s.c" % tag)
@@ -172,16 +188,18 @@ def make_entries(defs, cases, vectors, seed):
             if sig["write"]:
                 chunks = g.rng.choice([[], ["a"], ["héllo", "", " €"], ["0123456789" * 3, "x"]])
                 write = {"chunks": chunks, "cap": g.rng.choice([1, 4, 64])}
-            entries.append({"n": n, "sig": sig, "shape": c["shape"], "lay": c["lay"], "args": args, "retv": retv, "write": write})
+            entries.append({"n": n, "sig": sig, "shape": c["shape"], "lay": c["lay"], "cbs": c.get("cbs"), "args": args, "retv": retv, "write": write})
             n += 1
     return g, entries
 
 
 def check_events(rep, g, entries, events, leg="c"):
-    by_f = {}
+    by_f, cb_f = {}, {}
     for ev in events:
         if ev["ev"] in ("CCall", "RustEnter", "RustReturn", "CReturn", "CWrite"):
             by_f.setdefault(ev["f"], []).append(ev)
+        elif ev["ev"] in ("CbInvoke", "CbEnter", "CbReturn", "CbResult", "CbDrop"):
+            cb_f.setdefault(ev["f"].split(".")[0], []).append(ev)
     ncmp = 0
     for e in entries:
         f = "f%d" % e["n"]
@@ -193,6 +211,8 @@ def check_events(rep, g, entries, events, leg="c"):
         want_kinds = ["CCall", "RustEnter", "RustReturn", "CReturn"] + (["CWrite"] if sig["write"] else [])
         if kinds != want_kinds:
             rep.violation(dict(key, what="call protocol (exactly once, in order)"), {"sig": sig, "events": evs, "expected_order": want_kinds})
+            continue
+        if not check_callbacks(rep, g, e, key, evs, cb_f.get(f, [])):
             continue
         slots = []
         if sig["self"]["k"] in ("opq", "opqmut"):
@@ -219,6 +239,42 @@ def check_events(rep, g, entries, events, leg="c"):
     return ncmp
 
 
+def check_callbacks(rep, g, e, key, evs, cbevs):
+    """callback parameters: every scripted invocation happens once, in order, inside the body (between RustEnter and
+    RustReturn), with the tokens Rust sent == the tokens the foreign callback received == the script, the answer the
+    callback gave == what Rust got back == the script; every callback is destroyed exactly once before the caller resumes"""
+    sig = e["sig"]
+    cbi = [i for i, p in enumerate(sig["params"]) if p["k"] == "cb"]
+    if not cbi:
+        if cbevs:
+            rep.violation(dict(key, what="callback events for a call without callbacks"), {"sig": sig, "events": cbevs})
+            return False
+        return True
+    want = []
+    for i in cbi:
+        cf = "f%d.cb%d" % (e["n"], i)
+        p = sig["params"][i]
+        for call in e["args"]["params"][i]["calls"]:
+            at = ";".join(g.tok(a, x) for a, x in zip(p["ps"], call["args"]))
+            rt = "()" if p["r"]["k"] == "unit" else g.tok(p["r"], call["ret"])
+            want += [("CbInvoke", cf, at), ("CbEnter", cf, at), ("CbReturn", cf, rt), ("CbResult", cf, rt)]
+    got = [(x["ev"], x["f"], x["v"]) for x in cbevs if x["ev"] != "CbDrop"]
+    drops = [x for x in cbevs if x["ev"] == "CbDrop"]
+    if [(a, b, norm_ptr(c)) for a, b, c in got] != [(a, b, norm_ptr(c)) for a, b, c in want]:
+        rep.violation(dict(key, what="callback invocations differ from the script (values or order)"),
+                      {"sig": sig, "expected": want, "observed": got})
+        return False
+    if sorted(x["f"] for x in drops) != sorted("f%d.cb%d" % (e["n"], i) for i in cbi):
+        rep.violation(dict(key, what="callback not destroyed exactly once"), {"sig": sig, "drops": drops})
+        return False
+    enter, ret, cret = evs[1]["seq"], evs[2]["seq"], evs[3]["seq"]
+    if any(not (enter < x["seq"] < ret) for x in cbevs if x["ev"] != "CbDrop") or any(not (enter < x["seq"] < cret) for x in drops) \
+            or any(d["seq"] < x["seq"] for d in drops for x in cbevs if x["ev"] != "CbDrop" and x["f"] == d["f"]):
+        rep.violation(dict(key, what="callback used outside the call that owns it"), {"sig": sig, "events": evs, "callback_events": cbevs})
+        return False
+    return True
+
+
 def check_layouts(rep, defs, events):
     rl = {e["f"]: e["v"] for e in events if e["ev"] == "RustLayout"}
     cl = {e["f"]: e["v"] for e in events if e["ev"] == "CLayout"}
@@ -232,7 +288,7 @@ def check_layouts(rep, defs, events):
 def validate_protocol(rep, events, wd, tag):
     tr = os.path.join(wd, "trace_%s.ndjson" % tag)
     lib.write_ndjson(tr, [e for e in events if e["ev"] in ("CCall", "RustEnter", "RustReturn", "CReturn", "CWrite", "Reject",
-                                                           "CbInvoke", "CbEnter", "CbReturn", "CbResult")])
+                                                           "CbInvoke", "CbEnter", "CbReturn", "CbResult", "CbDrop")])
     ok, r = lib.validate_trace("abi", "Trace_CallProtocol", "call_trace.cfg", tr, heap="4g")
     rep.add_tlc("Trace_CallProtocol/" + tag, r)
     if not ok:
